@@ -236,6 +236,28 @@ pub fn idle_after_accepted_stop(cx: &Cx) -> Vec<(u32, u64, u64)> {
     out
 }
 
+/// A call whose handler ran to completion gets that handler's reply: whatever else happens to the actor afterwards (a
+/// stop that was queued right behind it, the termination announcement racing the reply), the answer was produced and
+/// belongs to the caller.  Returns (op index in `ix.ops`, handler exit stamp).  Sound on L2 (all facts are final).
+pub fn handled_call_without_reply(cx: &Cx) -> Vec<(usize, u64)> {
+    use crate::log::{OpK, Res};
+    let ix = cx.ix;
+    let mut out = vec![];
+    for (j, o) in ix.ops.iter().enumerate() {
+        if o.op != OpK::Call || !o.executed() || o.msg == 0 || o.e.is_none() || matches!(o.res, Some(Res::Cancelled) | Some(Res::Reply { .. })) {
+            continue;
+        }
+        let Some(v) = ix.inv_of.get(&o.msg) else { continue };
+        if v.len() != 1 {
+            continue;
+        }
+        if let Some((s, _, _, _)) = ix.invs[v[0]].out {
+            out.push((j, s));
+        }
+    }
+    out
+}
+
 pub fn stop_starvation(prop: &str, cx: &Cx, rep: &mut Report) {
     use crate::log::{K, Mk, OpK, Res};
     let ix = cx.ix;
